@@ -24,3 +24,10 @@ Theorem C16_context_not_in_key : forall ctx task key_of entry_of b t c c' r,
   stored ctx task key_of entry_of b t c r = stored ctx task key_of entry_of b t c' r.
 Proof. exact stored_independent_of_context. Qed.
 Print Assumptions C16_context_not_in_key.
+
+(* Nor does a pickled task object (e.g. one referenced from a stored result) carry the context it ran with: the
+   pickled state is an explicit whitelist of attributes in the current source. *)
+Require Import LT.Model.Values LT.Proofs.ValuesProofs.
+Theorem C16_pickled_task_carries_no_context : forall o, getstate_extras getstate_mode_src o = (None, None).
+Proof. exact getstate_whitelist_carries_no_context. Qed.
+Print Assumptions C16_pickled_task_carries_no_context.
